@@ -260,7 +260,7 @@ def check_composite(eng, comp, parts, key="C11/composite"):
         if got is None or tuple(got.shape) != (len(cols[0]), len(cols)):
             eng.fail(key + "/shape-differs-from-concatenation", f"{ft.value}: {None if got is None else got.shape}")
             continue
-        if list(comp.column_names[ft]) != names and not key.startswith("C11/composite/nested"):
+        if list(comp.column_names[ft]) != names:
             eng.fail(key + "/column-names-differ", f"{list(comp.column_names[ft])} vs {names}")
         for c, col in enumerate(cols):
             for i, v in enumerate(col):
@@ -269,6 +269,15 @@ def check_composite(eng, comp, parts, key="C11/composite"):
                     continue
                 items.append((veq(x, v), key + "/differs-from-column-wise-concatenation"))
     eng.prove_all(items)
+    try:
+        dfs = comp.features_as_dataframe
+        for ft, df in dfs.items():
+            if list(df.columns) != list(comp.column_names[ft]):
+                eng.fail(key + "/dataframe-columns-differ-from-column-names", ft.value)
+    except E.Unsupported:
+        raise
+    except Exception as ex:
+        eng.fail(key + f"/features_as_dataframe-raises-{type(ex).__name__}", f"{ex}"[:200])
 
 
 def harness(eng, sp):
